@@ -73,6 +73,12 @@ def plan(tier, seed):
             for ts in k1_ts:
                 for sc, lat, d, rml in itertools.product(SCORERS, (True, False), depths_full, (1.0, 0.5)):
                     yield (t, ts, sc, lat, d, rml, seed)
+        # every option OMITTED in both calls (each entry point then applies its own defaults: they have to be the same defaults)
+        yield ("<signature>", edge[3], "omitted", None, None, None, seed)
+        for t, ts in corp:
+            yield (t, ts + ":00", "omitted", None, None, None, seed)
+        for _, g in grammar.sentences():
+            yield (g, edge[3], "omitted", None, None, None, seed)
         for t, ts in corp:
             for sc, lat, d, rml in itertools.product(SCORERS, (True, False), (10, 1) if tier == "quick" else depths_full, (1.0, 0.5)):
                 yield (t, ts + ":00", sc, lat, d, rml, seed)
@@ -102,13 +108,26 @@ def run_case(case):
     ts = ts_of(ts_s)
     kw = dict(timeout=0, relative_match_len=rml, max_stack_depth=d, latent_time=lat)
     v = []
+    if sc == "omitted":
+        if text == "<signature>":
+            import inspect
+
+            pa, pb = inspect.signature(cp).parameters, inspect.signature(gen).parameters
+            diff = {k: (pa[k].default, pb[k].default) for k in pa if k in pb and pa[k].default != pb[k].default}
+            if diff:
+                v.append(viol({"kind": "defaults_differ", "options": sorted(diff)}, "ctparse and ctparse_gen declare different defaults: {}".format(diff)))
+            return {"o": "signature", "nt": True, "v": v}
+        kw = dict(timeout=0)
+        _mk_ = lambda *_: None
+    else:
+        _mk_ = _mk
     if sc == "random":
         # the same arguments with a differently seeded scorer of the same class first: the call under test must not see its traces
         cp(text, ts=ts, scorer=_mk(sc, seed + 7919), **kw)
-    L = [c for c in gen(text, ts=ts, scorer=_mk(sc, seed), **kw)]
-    r = cp(text, ts=ts, scorer=_mk(sc, seed), **kw)
+    L = [c for c in gen(text, ts=ts, scorer=_mk_(sc, seed), **kw)]
+    r = cp(text, ts=ts, scorer=_mk_(sc, seed), **kw)
     # debug=True hands back the candidate stream itself: it must be THE stream of the same arguments
-    D = [c for c in cp(text, ts=ts, scorer=_mk(sc, seed), debug=True, **kw)]
+    D = [c for c in cp(text, ts=ts, scorer=_mk_(sc, seed), debug=True, **kw)]
     if [_o(c) for c in D if c is not None] != [_o(c) for c in L if c is not None]:
         dl, ll = [_o(c) for c in D if c is not None], [_o(c) for c in L if c is not None]
         k = next((i for i in range(min(len(dl), len(ll))) if dl[i] != ll[i]), min(len(dl), len(ll)))
@@ -140,7 +159,7 @@ def run_case(case):
             v.append(viol(dict(sig, kind="result_not_in_stream"), "{}: ctparse returned {} which is not an element of the stream (same value streamed as {})".format(desc, ro, same_val[:1])))
         elif ro[3] != best:
             v.append(viol(dict(sig, kind="result_not_best"), "{}: ctparse returned score {} but the stream contains score {}".format(desc, ro[3], best)))
-        if not lat:
+        if lat is False:
             last = {}
             for o in obsL:
                 if o[0] in last and not (o[3] > last[o[0]]):
